@@ -84,6 +84,7 @@ type FnCtx struct {
 }
 
 type Frame struct {
+	lastValRef map[string]*ssa.BasicBlock // localsAt: block of the last value debug ref per source name (reset per call)
 	fc       *FnCtx
 	hintCallRes []SV // results of the call a `hint after` is attached to (bound as callresult, callresult<i>)
 	noPanicOld string // ext_nopanic.go: the `nopanic when` condition of the root function, evaluated in the entry state ("" = none)
@@ -486,7 +487,7 @@ func funcKey(fn *ssa.Function) string {
 		s = o.RelString(nil)
 	}
 	s = shortType(s)
-	return s
+	return stripRecvTypeArgs(s) // ext_c09.go: methods of generic types are keyed without the type parameter list
 }
 
 // ---------- frame: walking one function body ----------
